@@ -8,7 +8,7 @@
     (TraverseSchema) and the construction of DFAContentModel from the converted tree (including the counting states
     used for the compact Loop form, whose intended semantics is the clause for [CLoop] in [Lc]) are tied to the code
     by the correspondence run only. *)
-From XV Require Import C08.Spec08 C08.Model08 C08.Proofs08a C08.Proofs08b C08.Proofs08c C08.Proofs08d C08.Proofs08e C08.Proofs08f.
+From XV Require Import C08.Spec08 C08.Model08 C08.ModelDfa08 C08.Proofs08a C08.Proofs08b C08.Proofs08c C08.Proofs08d C08.Proofs08e C08.Proofs08f.
 
 Notation u1 := 1%N. Notation u2 := 2%N. Notation u3 := 3%N. Notation u4 := 4%N.
 
@@ -186,4 +186,34 @@ Example T08_xsitype_nonvacuous :
   m_xsitype 3 bext bres false up = true /\
   m_xsitype 1 none none true up = false /\
   m_xsitype 4 none none false up = false.
+Proof. cbv zeta. repeat split; vm_compute; reflexivity. Qed.
+
+(** known finding C08-counting, on the faithful model of DFAContentModel as built without leaf renaming
+    (schema-full-checking off): two particles with the same name share one element-map entry and hence one
+    Occurence; the well-formed, UPA-conforming particle (a{2,3}, b, a{1,2}) loses the valid word a a b a and gains
+    the invalid word a a b a a a.  (The design's T08_counting -- the counting DFA accepts exactly Lp under UPA when
+    no two leaves share a map entry -- is NOT proved; ModelDfa08 is tied to the code by the correspondence only.) *)
+Definition ex_counting : particle :=
+  Seq 1 (Some 1) [Elem 2 (Some 3) (u2, 1%N); Elem 1 (Some 1) (u2, 2%N); Elem 1 (Some 2) (u2, 1%N)].
+Theorem T08_counting_refuted :
+  wfb ex_counting = true /\
+  Lp ex_counting [(u2,1);(u2,1);(u2,2);(u2,1)]%N /\ dfa_valid 500 ex_counting [(u2,1);(u2,1);(u2,2);(u2,1)]%N = 0 /\
+  ~ Lp ex_counting [(u2,1);(u2,1);(u2,2);(u2,1);(u2,1);(u2,1)]%N /\
+  dfa_valid 500 ex_counting [(u2,1);(u2,1);(u2,2);(u2,1);(u2,1);(u2,1)]%N = 1.
+Proof.
+  split; [vm_compute; reflexivity|]. split; [apply pmatch_correct; vm_compute; reflexivity|].
+  split; [vm_compute; reflexivity|]. split; [|vm_compute; reflexivity].
+  intro H. apply pmatch_correct in H. vm_compute in H. discriminate H.
+Qed.
+Print Assumptions T08_counting_refuted.
+
+(** the DFA model on a counted particle followed by a counted wildcard that matches the same name (overflow search and
+    counter of the newly entered counting state in handleRepetitions): agrees with Lp on the boundary words *)
+Example T08_dfa_overlap_example :
+  let p := Seq 1 (Some 1) [Elem 2 (Some 2) (u2, 1%N); Wild 2 (Some 3) NsAny] in
+  let a := (u2, 1%N) in let x := (u3, 6%N) in
+  dfa_valid 500 p [a;a;a;x] = 1 /\ pmatch p [a;a;a;x] = true /\
+  dfa_valid 500 p [a;a;a;a] = 1 /\ pmatch p [a;a;a;a] = true /\
+  dfa_valid 500 p [a;a;a;x;x;x] = 0 /\ pmatch p [a;a;a;x;x;x] = false /\
+  dfa_valid 500 p [a;a;x] = 0 /\ pmatch p [a;a;x] = false.
 Proof. cbv zeta. repeat split; vm_compute; reflexivity. Qed.
